@@ -29,10 +29,10 @@ func (w crashWindows) at(k int) (last *State, inprog *CommitRec) {
 
 // evalRecovered opens an image and checks it against the allowed states.
 // Returns the runner of the recovered file (closed) or nil.
-func evalRecovered(e *Env, prop string, cfg Cfg, img []byte, last *State, inprog *CommitRec, cont bool, contSeed uint64, desc string) {
+func evalRecovered(e *Env, prop string, cfg Cfg, img []byte, last *State, inprog *CommitRec, cont bool, contSeed uint64, desc string, nested ...bool) {
 	d2 := simdisk.NewFromImage("image", e.S, img)
 	d2.YieldIO = false
-	d2.LogData = false
+	d2.LogData = len(nested) > 0 && nested[0]
 	r2 := NewRunner(e, d2, cfg)
 	r2.AsProp = prop
 	var err error
@@ -95,16 +95,35 @@ func evalRecovered(e *Env, prop string, cfg Cfg, img []byte, last *State, inprog
 	if r2.InTx() && !e.Failed() {
 		r2.Apply(Op{K: "rollback"})
 	}
+	if d2.LogData && !e.Failed() {
+		// second crash: the transactions that ran on the recovered file are cut
+		// at every I/O boundary again (a power failure right after a recovery)
+		e.Probe("second_crash_after_recovery")
+		win2 := crashWindows{r2}
+		plan2 := CrashPlan{From: 0, MaxExh: 4, NRandom: 4, PageSize: cfg.PageSize, Tear: true, Rng: e.Rng(fmt.Sprintf("crash2-%d", contSeed)), Stop: func() bool { return e.Failed() || outOfTime() }}
+		log2 := append([]simdisk.Op(nil), d2.Log...)
+		n2 := 0
+		EnumerateCrashes(log2, img, plan2, func(k int, ch *CrashChoice, n int, img2 []byte) {
+			n2++
+			last2, inprog2 := win2.at(k)
+			d := fmt.Sprintf("%s; recovered, %d more transactions, second crash before I/O #%d of them, %d of %d pending kept %v", desc, len(r2.Commits), k, len(ch.Keep), n, ch.Keep)
+			if ch.TearPos >= 0 {
+				d += fmt.Sprintf(", header write torn after %d bytes", ch.TearLen)
+			}
+			evalRecovered(e, prop, cfg, img2, last2, inprog2, false, 0, d)
+		})
+		e.Res.Evals += n2
+	}
 	if !e.Failed() {
 		r2.Reopen()
 	}
 }
 
 func init() {
-	probeNames["C01"] = []string{"recovered_last", "recovered_inprogress", "continuation", "pending_gt_exh", "torn_header", "txid_wrap", "truncate_pending", "image_nonempty_pending", "commit_ok", "reopen", "big_transaction", "writer_batch_limit_reached"}
+	probeNames["C01"] = []string{"recovered_last", "recovered_inprogress", "continuation", "pending_gt_exh", "torn_header", "txid_wrap", "truncate_pending", "image_nonempty_pending", "commit_ok", "reopen", "big_transaction", "writer_batch_limit_reached", "second_crash_after_recovery"}
 	register(&PropDef{
 		ID: "C01", Level: "fault_enumeration", QuickSec: 55, ThoroSec: 1200,
-		Rule: "each run = one seeded txops history (config and writer timing drawn per run); evaluations = crash images: for EVERY op-log index after file creation (crash just before that I/O call) x subsets of the writes/truncates issued since the last completed sync (all 2^n subsets for n<=6 quick / 8 thorough, else none/all/all-but-one/singletons/prefixes/random) x header tears at all field boundaries + random offsets; each image is opened by the real engine and compared with the allowed model state selected by header txid, then every 4th image runs a continuation workload + reopen. Non-trivial = image with at least one pending op; distinct = (run signature, crash index, kept subset, tear).",
+		Rule: "each run = one seeded txops history (config and writer timing drawn per run); evaluations = crash images: for EVERY op-log index after file creation (crash just before that I/O call) x subsets of the writes/truncates issued since the last completed sync (all 2^n subsets for n<=6 quick / 8 thorough, else none/all/all-but-one/singletons/prefixes/random) x header tears at all field boundaries + random offsets; each image is opened by the real engine and compared with the allowed model state selected by header txid, then every 4th image runs a continuation workload + reopen; for up to 4 (thorough: 12) of the continued images per run, preferably ones with a torn header, the continuation itself is cut at every I/O boundary again (second crash right after a recovery, reduced subset family, header tears) and evaluated the same way. Non-trivial = image with at least one pending op; distinct = (run signature, crash index, kept subset, tear).",
 		Real: defaultReal, Stub: defaultStub, Assume: defaultAssume,
 		FaultKinds: []string{"crash at every I/O boundary", "lost un-synced page writes (subset enumeration)", "reordered writes (subset semantics)", "torn header write", "lost truncate"},
 		Body: c01Body,
@@ -187,8 +206,13 @@ func c01Body(e *Env) {
 	if c.Tier == "thorough" {
 		maxExh, nrand = 8, 32
 	}
-	plan := CrashPlan{From: 0, MaxExh: maxExh, NRandom: nrand, PageSize: c.Cfg.PageSize, Tear: true, Rng: e.Rng("crash"), Only: c.Crash, Stop: e.Failed, SparseK: big}
+	plan := CrashPlan{From: 0, MaxExh: maxExh, NRandom: nrand, PageSize: c.Cfg.PageSize, Tear: true, Rng: e.Rng("crash"), Only: c.Crash, Stop: func() bool { return e.Failed() || outOfTime() }, SparseK: big}
 	evals := 0
+	nestRng := e.Rng("c01nest")
+	nestedLeft := 4
+	if c.Tier == "thorough" {
+		nestedLeft = 12
+	}
 	for _, op := range log {
 		if op.Kind == simdisk.OpTruncate {
 			e.Probe("truncate_pending")
@@ -220,7 +244,23 @@ func c01Body(e *Env) {
 		if n >= 1024 {
 			e.Probe("writer_batch_limit_reached")
 		}
-		evalRecovered(e, "C01", r.Cfg, img, last, inprog, evals%4 == 0 || k == len(log), uint64(evals), desc)
+		cont := evals%4 == 0 || k == len(log)
+		nested := false
+		if cont && !big && nestedLeft > 0 && c.Crash == nil {
+			if ch.TearPos >= 0 {
+				nested = nestRng.Intn(10) == 0
+			} else {
+				nested = nestRng.Intn(150) == 0
+			}
+			if nested {
+				nestedLeft--
+			}
+		}
+		if c.Crash != nil {
+			cont, nested = c.Crash.Cont, c.Crash.Nested
+		}
+		ch.Cont, ch.Nested = cont, nested
+		evalRecovered(e, "C01", r.Cfg, img, last, inprog, cont, uint64(evals), desc, nested)
 		if e.Failed() && c.Crash == nil {
 			c.Crash = ch
 		}
